@@ -34,6 +34,17 @@ def check_n(drv, n, fails):
     if not ok:
         fails.append(Failure(f'u64_to_hex({n}) = {s!r}, parses back to {back}', {'n': n}))
 
+def check_parse_then_print(drv, n, spelling, fails):
+    """an id that arrives as text in any accepted spelling prints in the one canonical form (equal ids have equal strings)"""
+    a5 = drv.a5
+    try:
+        v = a5.hex_to_u64(spelling)
+        s = a5.u64_to_hex(n)
+    except Exception as e:  # noqa
+        fails.append(Failure(f'hex_to_u64({spelling!r}) then u64_to_hex({n}) raises {type(e).__name__}', {'n': n, 'spelling': spelling})); return
+    if v != n or s != '%x' % n:
+        fails.append(Failure(f'after hex_to_u64({spelling!r}) = {v}, u64_to_hex({n}) = {s!r} (canonical text is {"%x" % n!r})', {'n': n, 'spelling': spelling}))
+
 def oracle(tier, rng, seeds):
     drv = common.py_driver()
     fails, seen = [], set()
@@ -50,6 +61,11 @@ def oracle(tier, rng, seeds):
         if t[0] == 'hex' and int(t[1]) >= 0:
             ns.insert(0, int(t[1]))
     byhex = {}
+    # values that have not been printed before arrive as text first
+    for _ in range(600 if tier == 'quick' else 60000):
+        n = rng.getrandbits(rng.choice([8, 16, 32, 60, 64]))
+        h = '%x' % n
+        check_parse_then_print(drv, n, rng.choice([h.upper(), '0' * rng.randint(1, 4) + h, '0x' + h, ' ' + h.upper() + ' ', '0X' + h.upper()]), fails)
     for n in ns:
         if n in seen:
             continue
@@ -65,5 +81,8 @@ def oracle(tier, rng, seeds):
 
 def replay(f):
     fails = []
+    if 'spelling' in f['data']:
+        check_parse_then_print(common.py_driver(), f['data']['n'], f['data']['spelling'], fails)
+        return bool(fails)
     check_n(common.py_driver(), f['data']['n'], fails)
     return bool(fails)
